@@ -15,7 +15,12 @@ PROP = "C16"
 def run(run):
     proofs_ok = core.proof_stage(run, "Props/C16.v")
     tier_q = run.tier == "quick"
-    cases = [lingen.case(run.rng) for _ in range(500 if tier_q else 8000)]
+    cases = []
+    while len(cases) < (500 if tier_q else 8000):
+        c0 = lingen.case(run.rng)
+        cases.append(c0)
+        for _ in range(run.rng.choice([0, 2, 3])):          # further statements over the same catalogue, analysed one after the other in one process
+            cases.append(lingen.case(run.rng, cat=c0[0]))
     reqs = ["LINEAGE %s | %s" % (c[0].request_part(), stmt.cps(c[1])) for c in cases]
     im = core.run_impl(reqs)
     mo = core.run_model(reqs)
